@@ -93,6 +93,11 @@ def _new_type(EventType, EventError, name, metadata):
     raise RuntimeError("cannot create EventType " + name)
 
 
+def _new_type_other_class(EventType, name, metadata):
+    """same NAME as another type, but defined in another function: EventType identity includes the defining class"""
+    return EventType(name, metadata)
+
+
 def _env():
     global _ENV
     if _ENV is None:
@@ -102,6 +107,12 @@ def _env():
         def md(spec):
             return None if spec is None else {k: _TN[v] for k, v in spec.items()}
         types = [_new_type(ET, EE, "C08_T%d" % i, md(s)) for i, s in enumerate(TYPE_SPECS)]
+        # type 1 carries the SAME name as type 0 but is defined elsewhere: two distinct event types whose names
+        # tie (Door.CHANGED / Window.CHANGED) must not share subscribers
+        try:
+            types[1] = _new_type_other_class(ET, types[0].name, md(TYPE_SPECS[1]))
+        except EE:
+            pass
         mtypes = []
         for i, s in enumerate(META_SPECS):
             if i == 2:
